@@ -26,6 +26,8 @@ type Stream struct {
 	stalled bool
 	wdl     time.Time
 	Parked  atomic.Int64 // writers currently parked
+	// WriteErr makes every Write fail with this error (the stream itself stays open for reading until closed)
+	WriteErr error
 }
 
 // Stall makes every Write from now on park like a write into the full buffers of a peer that does not read.
@@ -91,6 +93,11 @@ func (s *Stream) Idle() bool {
 
 func (s *Stream) Write(p []byte) (int, error) {
 	s.mu.Lock()
+	if s.WriteErr != nil && !s.closed {
+		err := s.WriteErr
+		s.mu.Unlock()
+		return 0, err
+	}
 	if s.stalled && !s.closed {
 		s.Parked.Add(1)
 		for !s.closed && (s.wdl.IsZero() || time.Now().Before(s.wdl)) {
